@@ -190,3 +190,50 @@ void h_PLSRegressionStatistics(void)
   VC_REACH();
 }
 #endif
+
+#ifdef VC_UNIT_FORMULAS
+/* R2 / MSE / RMSE / MAE / BIAS against their formulas (ring mode, cells restricted to 0..3 so that no intermediate leaves
+ * the int8 range: ring arithmetic is then integer arithmetic with truncating division, the same in the routine and in the
+ * formula below).  What is decided: which elements enter which sum, the argument order (prediction - truth), the counts
+ * and the denominators; sqrt is an uninterpreted function (stubs/usqrt_stub.c); rounding and the missing-value branch
+ * are not decided here. */
+#include "statistic.h"
+#include <math.h>
+static double small_cell(void)
+{
+  uint64_t v = vc_in_u64();
+  VC_ASSUME(v <= 3);
+  return (double)(int8_t)v;
+}
+void h_regression_formulas(void)
+{
+  dvector *yt, *yp;
+  double t[GMAX], p[GMAX];
+  NewDVector(&yt, VC_N); NewDVector(&yp, VC_N);
+  for(size_t i = 0; i < VC_N; i++) {
+    t[i] = yt->data[i] = small_cell();
+    p[i] = yp->data[i] = small_cell();
+  }
+  double avg = 0, ssreg = 0, sstot = 0, sabs = 0, syi = 0, sxi = 0;
+  for(size_t i = 0; i < VC_N; i++)
+    avg += t[i];
+  avg /= (double)VC_N;
+  for(size_t i = 0; i < VC_N; i++) {
+    ssreg += (p[i] - t[i]) * (p[i] - t[i]);
+    sstot += (t[i] - avg) * (t[i] - avg);
+    sabs += (p[i] > t[i]) ? (p[i] - t[i]) : (t[i] - p[i]);
+    syi += p[i] * (t[i] - avg);
+    sxi += t[i] * (t[i] - avg);
+  }
+  VC_ASSUME(sstot != 0 && sxi != 0); /* the ratios are defined */
+  double r2 = R2(yt, yp), mse = MSE(yt, yp), rmse = RMSE(yt, yp), mae = MAE(yt, yp), bias = BIAS(yt, yp);
+  VC_CHECK("MSE == sum (prediction - truth)^2 / n", mse == ssreg / (double)VC_N);
+  VC_CHECK("RMSE == sqrt(MSE)", rmse == (double)sqrt(ssreg / (double)VC_N));
+  VC_CHECK("MAE == sum |prediction - truth| / n", mae == sabs / (double)VC_N);
+  VC_CHECK("R2 == 1 - sum (prediction - truth)^2 / sum (truth - mean truth)^2", r2 == 1 - ssreg / sstot);
+  double b = 1 - syi / sxi;
+  VC_CHECK("BIAS == |1 - slope of prediction on truth|", bias == (b < 0 ? -b : b));
+  VC_CHECK("perfect prediction: errors 0 and R2 == 1", !(ssreg == 0) || (mse == 0 && mae == 0 && r2 == 1));
+  VC_REACH();
+}
+#endif
